@@ -899,4 +899,87 @@ def lRun (reboot pooled : Bool) : LState → List LOp → LState × List LObs
 def LGood (s : LState) : Prop := s.leaked = 0 ∧ (s.started = true → s.listening = true ∧ s.poolOpen = true) ∧
   (s.started = false → s.listening = false)
 
+
+/-! ## The life cycle of one TCP/DoT connection under real pipelining (`serveTCPConn`)
+
+`serveTCPConn` reads frames in a loop; every frame read is counted in the connection's wait group
+(`wg.Add(1)` in `acceptTCPMsg`) and handed to a worker (`serveTCPMessage`, which ends with
+`wg.Done()`), so several frames of one connection are inside the handler at the same time and finish
+in any order.  When the read loop ends — the client half-closed the stream (EOF), a read error, the idle
+time-out, `Shutdown` (which expires the read deadline), or the connection was closed under the reader —
+the deferred clean-up first waits for the workers (`wg.Wait()`) and only then closes the connection.
+A worker whose frame produced no response (undecodable octets, an ignored message, a silent handler)
+closes the connection itself (`serveTCPMessage`, "nothing has been written").
+
+The model is a transition system over the events an arbitrary scheduler can produce; `waitFirst` is the
+order of `wg.Wait()` and `Close` in the clean-up (`true`: the code as it is). -/
+
+inductive CEv
+  /-- the read loop read the frame `id`; `drop`: its processing will end without a response -/
+  | recv (id : Nat) (drop : Bool)
+  /-- the worker of frame `id` reaches its end: it writes the response (or closes, for a drop frame) -/
+  | finish (id : Nat)
+  /-- the read loop ends (EOF, read error, idle time-out, `Shutdown`) -/
+  | endRead
+deriving DecidableEq, Repr
+
+/-- What the client side of the connection can observe, in order. -/
+inductive CObs
+  | wrote (id : Nat)   -- the response to frame `id` went out
+  | lost (id : Nat)    -- the response to frame `id` was written to a connection the server had closed
+  | closed             -- the server called `Close`
+deriving DecidableEq, Repr
+
+structure CState where
+  /-- the read loop is running -/
+  reading : Bool
+  /-- number of `Close` calls so far; the connection is closed iff it is positive -/
+  closes : Nat
+  /-- frames inside their worker that will write a response -/
+  inflight : List Nat
+  /-- frames inside their worker that will write nothing -/
+  dropping : List Nat
+  /-- the deferred clean-up has closed the connection -/
+  finalDone : Bool
+  /-- answerable frames read so far / answered / answer lost, in order -/
+  received : List Nat
+  answered : List Nat
+  lost : List Nat
+  log : List CObs
+deriving DecidableEq, Repr
+
+def cInit : CState :=
+  { reading := true, closes := 0, inflight := [], dropping := [], finalDone := false,
+    received := [], answered := [], lost := [], log := [] }
+
+/-- The deferred clean-up of `serveTCPConn`, enabled once the read loop has ended: with `waitFirst`
+the connection is closed only when no worker of this connection is left. -/
+def cSettle (waitFirst : Bool) (s : CState) : CState :=
+  if !s.reading && !s.finalDone && (!waitFirst || (s.inflight.isEmpty && s.dropping.isEmpty)) then
+    { s with closes := s.closes + 1, finalDone := true, log := s.log ++ [.closed] }
+  else s
+
+def cStep (waitFirst : Bool) (s : CState) : CEv → CState
+  | .recv id drop =>
+    if s.reading then
+      if drop then { s with dropping := id :: s.dropping }
+      else { s with inflight := id :: s.inflight, received := s.received ++ [id] }
+    else s
+  | .finish id =>
+    if s.inflight.contains id then
+      if s.closes = 0 then
+        cSettle waitFirst { s with inflight := s.inflight.erase id, answered := s.answered ++ [id],
+                                    log := s.log ++ [.wrote id] }
+      else
+        cSettle waitFirst { s with inflight := s.inflight.erase id, lost := s.lost ++ [id],
+                                    log := s.log ++ [.lost id] }
+    else if s.dropping.contains id then
+      -- nothing was written: the worker closes the connection, the reader's next Read fails
+      cSettle waitFirst { s with dropping := s.dropping.erase id, closes := s.closes + 1, reading := false,
+                                  log := s.log ++ [.closed] }
+    else s
+  | .endRead => if s.reading then cSettle waitFirst { s with reading := false } else s
+
+def cRun (waitFirst : Bool) (s : CState) (evs : List CEv) : CState := evs.foldl (cStep waitFirst) s
+
 end Agd.Serve
